@@ -27,6 +27,15 @@ def _globals(cfg):
 
 def _points(ctx, cfg):
     sh = tuple(cfg["pshape"])
+    if cfg.get("int_coords"):
+        # integer-valued coordinates stored with an integer dtype (modelled dtype in the symbolic run,
+        # real int64 arrays in the replay)
+        from symx import npx
+
+        ei, ni = ctx.ints("e", sh, -9, 9), ctx.ints("n", sh, -9, 9)
+        if ctx.sym:
+            return npx.SymArray(ei, "int64"), npx.SymArray(ni, "int64"), ctx.reals("x", sh)
+        return np.asarray(ei, dtype=np.int64), np.asarray(ni, dtype=np.int64), ctx.reals("x", sh)
     e = ctx.reals("e", sh)
     n = ctx.reals("n", sh)
     x = ctx.reals("x", sh)
@@ -170,6 +179,7 @@ def _cfg_rolling(tier, seed):
         {"pshape": (1,), "region": "given", "maxq": "1", "adjust": "region"},
         {"pshape": (1,), "region": "given", "shape": (1, 2)},
         {"pshape": (2, 2), "region": "given", "shape": (1, 1)},
+        {"pshape": (1,), "region": "given", "shape": (1, 2), "int_coords": True},
     ]
     if tier == "quick":
         return q
@@ -200,7 +210,7 @@ HARNESSES = [
     Harness(
         "expanding_window",
         h_expanding,
-        lambda tier, seed: [{"pshape": (2,), "nsizes": 2}, {"pshape": (1, 2), "nsizes": 1}] + ([{"pshape": (2, 2), "nsizes": 2}, {"pshape": (2,), "nsizes": 3}] if tier == "thorough" else []),
+        lambda tier, seed: [{"pshape": (2,), "nsizes": 2}, {"pshape": (1, 2), "nsizes": 1}, {"pshape": (2,), "nsizes": 1, "int_coords": True}] + ([{"pshape": (2, 2), "nsizes": 2}, {"pshape": (2,), "nsizes": 3}] if tier == "thorough" else []),
         bounds="2-4 symbolic points (1-D and 2-D arrays, extra coordinate), symbolic centre, 1-3 symbolic sizes in any order",
         stubs=["scipy.spatial.cKDTree -> StubKDTree (ball-query contract)"],
         extra_globals=_globals,
